@@ -129,7 +129,8 @@ theorem renameObj_spec {e : Env} {t : Tree} (ht : TreeOK e t) {base : Path} {m :
       (∀ q, q.head? = some .toc → get? t' q = get? t q) ∧
       (∀ q, isInternal q = false → get? t' q = get? t q) ∧
       (∀ p r' u'', ObjAt t' p r' u'' ↔ ((ObjAt t p r' u'' ∧ p ≠ base ++ [.metaDir m, .obj r u]) ∨
-        (p = base ++ [.metaDir m, .obj r u'] ∧ r' = r ∧ u'' = u'))) := by
+        (p = base ++ [.metaDir m, .obj r u'] ∧ r' = r ∧ u'' = u'))) ∧
+      (∀ q, q ≠ base ++ [.metaDir m, .obj r u] → q ≠ base ++ [.metaDir m, .obj r u'] → get? t' q = get? t q) := by
   obtain ⟨tok, htok⟩ : ∃ tok, get? t (base ++ [.metaDir m, .obj r u]) = some (.ds (.data tok)) := by
     cases hx : get? t (base ++ [.metaDir m, .obj r u]) with
     | none => exact absurd hx hex
@@ -240,8 +241,13 @@ theorem renameObj_spec {e : Env} {t : Tree} (ht : TreeOK e t) {base : Path} {m :
           intro h; rw [h, hfree] at hg; exact hg rfl
         rw [g _ (by simp), if_neg e1, if_neg hqp]; exact hg
       · exact ⟨base, m, hb, rfl, by rw [g _ (by simp [hnew]), if_pos rfl]; exact hex⟩
+  have hframe : ∀ q, q ≠ p → q ≠ new → get? t' q = get? t q := by
+    intro q h1 h2
+    by_cases hq0 : q = []
+    · subst hq0; simp
+    · rw [g q hq0, if_neg h2, if_neg h1]
   refine ⟨t', hmv, ⟨rawMove_keys hmv ht.keys ht.pclosed, rawMove_pclosed hmv ht.pclosed, ?_, ?_, ?_, ?_, ?_⟩,
-    htoc, huser, hobj⟩
+    htoc, huser, hobj, hframe⟩
   · intro q n hq hqt hg
     rw [g q hq] at hg
     split_ifs at hg with h1 h2
